@@ -102,7 +102,8 @@ impl RetryPolicy {
         Fut: Future<Output = Result<T>>,
     {
         let mut attempt = 0;
-        let mut backoff = self.initial_backoff;
+        // The first wait is bounded by max_backoff like every later one
+        let mut backoff = self.initial_backoff.min(self.max_backoff);
 
         loop {
             match f().await {
